@@ -139,7 +139,7 @@ var deviations = []deviation{
 	// a second identity message, naming another key, in the middle of an established link
 	{"second-identity-other-key", func(in *input, c *certSpec) { in.Reident = kE + 1; in.Msgs = 3 }, "tls"},
 	{"second-identity-held-key", func(in *input, c *certSpec) { in.Reident = kB + 1; in.Msgs = 3 }, "tls"},
-	// TLS session resumption (C08-N1): after one honest handshake with its own key the
+	// TLS session resumption (C08-N1, fixed in /repo: every such case must end in a full handshake): after one honest handshake with its own key the
 	// peer reconnects offering the session ticket; what it would present in a full
 	// handshake varies (nothing at all / garbled proof / honest), as does the identity
 	{"resume-same-honest-fallback", func(in *input, c *certSpec) { in.Resume = "same" }, "accept-tls"},
@@ -262,7 +262,7 @@ func corpus() []interface{} {
 		}
 		// F29 witness (Tls.crash_refuted)
 		ins = append(ins, deviate("tls", s, "accept", find("identity-no-key")))
-		// C08-N1 witness (TlsProofs.resumption_refuted): ticket alone, no certificate
+		// C08-N1 regression (TlsProofs.previous_variant_resumption_refuted; fixed in /repo): ticket alone, no certificate
 		ins = append(ins, deviate("tls", s, "accept", find("resume-same-no-certificate")))
 		// honest handshakes
 		for _, r := range roles {
